@@ -2,7 +2,7 @@ use embassy_time::Instant;
 use embedded_io_async::Error as _;
 
 use crate::mqtt_client::OpKind;
-use crate::mqtt_client::outbound::{CONTROL_PACKET_LEN, write_all};
+use crate::mqtt_client::outbound::CONTROL_PACKET_LEN;
 use crate::mqtt_client::session::state::Closing;
 use crate::packets::{Disconnect, PublishHeader, Subscribe, Unsubscribe};
 use crate::properties::{Properties, PropertyContext};
@@ -309,12 +309,25 @@ impl<'buf, IO: Io> Connection<'_, 'buf, IO> {
         if !self.live {
             return Err(Error::Disconnected.into());
         }
-        if let Err(err) = write_all(&mut self.io, packet).await {
-            if matches!(err, Error::WriteZero) {
-                return Err(err.into());
+        // The packet is written straight from scratch space and cannot be resumed: once part of
+        // it is on the wire, anything written later would land inside it. A write that accepts
+        // nothing (`Ok(0)`) leaves the connection usable only if it was the packet's first.
+        let mut written = 0;
+        let failure = loop {
+            if written == packet.len() {
+                break None;
             }
-            warn!("QoS0 PUBLISH write failed");
-            self.handle_disconnect();
+            match self.io.write(&packet[written..]).await {
+                Ok(0) => break Some((Error::WriteZero, written > 0)),
+                Ok(count) => written += count,
+                Err(err) => break Some((Error::Transport(err), true)),
+            }
+        };
+        if let Some((err, latch)) = failure {
+            if latch {
+                warn!("QoS0 PUBLISH write failed");
+                self.handle_disconnect();
+            }
             return Err(err.into());
         }
         if let Err(err) = self.io.flush().await {
